@@ -81,7 +81,10 @@ AfterViol(e) ==
 (* closing the session after the peer has gone: an operation like any other *)
 CloseOpViol(e) ==
   IF ~Has(e, "closeop") \/ e.established # "yes" THEN {}
-  ELSE IF Hung(e.closeop.out) THEN {V("C07", "CloseOfTheSessionHangsAfterPeerClosed", e, "close=" \o e.close)} ELSE {}
+  ELSE IF Hung(e.closeop.out) THEN {V("C07", "CloseOfTheSessionHangsAfterPeerClosed", e, "close=" \o e.close)}
+  (* ... and it completes with an error: the peer was gone before <close-session> could be answered *)
+  ELSE IF e.closeop.out = "ok" THEN {V("C07", "CloseOfTheSessionReportsSuccessAfterPeerClosed", e, "close=" \o e.close)}
+  ELSE {}
 LineViol(e) == EstViol(e) \cup ResultViol(e) \cup AfterViol(e) \cup CloseOpViol(e)
 
 Nontrivial(e) == e.cuts # <<>> \/ e.close # "none" \/ e.hello_close # "none" \/ e.hello_cuts # <<>>
